@@ -130,11 +130,38 @@ def mc_lease(wd, tier, workers):
     return out
 
 
-_READS = dict(hcfg={"n": 3, "cap": 100}, rnd_cfgs=[{"n": 3, "cap": 100}, {"n": 5, "cap": 100}], profile="reads")
+def mc_compaction(wd, tier, workers):
+    """Compaction.tla (C33): the repaired design must satisfy the purge invariants and the catch-up liveness property
+    under fairness (design = as implemented here); two mutants are run too and their (expected) counterexamples
+    recorded (a mutant that is NOT refuted is a tool error: the property would be vacuous)."""
+    out = []
+    consts = dict(MaxIdx=6 if tier == "quick" else 8, Threshold=2, Retained=1, Cap=2)
+    for dev in ([], ["M_NextIndexNotAdvancedAfterSnapshot"], ["M_SnapshotBelowBoundaryMinus1"]):
+        cfg = os.path.join(wd, "compaction-%d.cfg" % len(out))
+        c = dict(consts)
+        c["Dev"] = dv.tla_set(dev)
+        dv.write_cfg(cfg, spec="FairSpec", constants=c,
+                     invariants=["C33_PurgeSafe", "C33_PrevTermKnown", "C33_FollowerSane"], properties=["C33_CatchUp"])
+        st = dv.tlc_mc("Compaction", cfg, wd, workers=min(workers, 4), timeout=1500)
+        if not dev and not st["ok"]:
+            raise dv.ToolError("Compaction.tla (Dev={}) violates %s:\n%s" % (st["violated"], st["output_tail"]))
+        if dev and st["ok"]:
+            raise dv.ToolError("Compaction.tla: mutant %s is not refuted" % dev)
+        out.append({"config": "Compaction.tla Dev=%s" % (dev or "{}"), "constants": consts,
+                    "distinct_states": st["distinct"], "states_generated": st["generated"], "depth": st["depth"],
+                    "secs": st["secs"], "invariant_holds": st["ok"], "violated": st["violated"],
+                    "liveness_checked": "C33_CatchUp under WF of replication, commit, apply and write steps"})
+    return out
+
+
+# three voters and a learner every node knows from its initial configuration
+_FULL4 = [[1, "F", "A"], [2, "F", "A"], [3, "F", "A"], [4, "Ln", "P"]]
+H_LEARNER = {"initial": {str(n): _FULL4 for n in (1, 2, 3, 4)}, "cap": 100}
+_READS = dict(hcfg={"n": 3, "cap": 100}, rnd_cfgs=[{"n": 3, "cap": 100}, {"n": 5, "cap": 100}, H_LEARNER], profile="reads")
 PROPS["C11"] = dict(mc={"quick": ["repl-q"], "thorough": ["repl-t"]}, mc_custom=[mc_lease, lambda *a: mc_client(*a)], client=60, mech=["Client"], min_mech=2, **_READS)
 PROPS["C12"] = dict(mc={"quick": [], "thorough": []}, mc_custom=mc_lease, mech=["Client"], min_mech=2, **_READS)
 _SNAP = {"n": 3, "cap": 100, "snapshot": True, "snap_threshold": 3, "retained": 1}
-PROPS["C33"] = dict(mc={"quick": ["repl-q"], "thorough": ["repl-t"]}, mech=["DeliverSnap", "Restart"], min_mech=1, level="exploration",
+PROPS["C33"] = dict(mc={"quick": ["repl-q"], "thorough": ["repl-t"]}, mc_custom=[mc_compaction], mech=["DeliverSnap", "Restart"], min_mech=1, level="exploration",
                     hcfg=_SNAP, rnd_cfgs=[_SNAP, dict(_SNAP, retained=2, snap_threshold=4)])
 PROPS["C30"] = dict(mc={"quick": ["repl-q"], "thorough": ["repl-t"]}, mech=["Client"], min_mech=2, level="exploration",
                     hcfg={"n": 3, "cap": 2}, rnd_cfgs=[{"n": 3, "cap": 2}, {"n": 3, "cap": 100, "general_timeout_ms": 50}], profile="reads")
@@ -246,6 +273,16 @@ def mc_client(wd, tier, workers):
     runs = [([], name)]
     if tier != "quick":
         runs.append((["ReadServedOnApplyWithoutConfirmation"], "client-q"))
+    if tier != "quick":
+        # the hand-written settled state is the one TLC reaches from Init (depth 13)
+        sc = dict(CLIENT, MaxTerm=2, MaxLog=1, Faults=["Heartbeat"], MaxReads=0)
+        cfg = mc_client_cfg(wd, "settle", sc, [], ["SettledIsInitLed"], led=False)
+        st = dv.tlc_mc("MC_client", cfg, wd, workers=workers, timeout=1500)
+        if not st["ok"]:
+            raise dv.ToolError("MC_client: InitLed is not the settled state reachable from Init:\n" + st["output_tail"])
+        out.append({"config": "MC_client/settle (InitLed reachable from Init)", "constants": sc,
+                    "distinct_states": st["distinct"], "states_generated": st["generated"], "depth": st["depth"],
+                    "secs": st["secs"], "invariant_holds": True})
     for dev, cname in runs:
         cfg = mc_client_cfg(wd, "%s-%d" % (cname, len(out)), MCC[cname], dev, R_INVS)
         st = dv.tlc_mc("MC_client", cfg, wd, workers=workers, timeout=3000)
@@ -348,6 +385,8 @@ def check(prop, tier):
     dv.build_harness("dv-cluster")
 
     # 1. design level: repaired design must satisfy the invariants of P
+    phase = {}
+    tp0 = time.time()
     mc_stats = []
     states = transitions = 0
     for name in spec["mc"][tier]:
@@ -369,6 +408,8 @@ def check(prop, tier):
                 states += st["distinct_states"]
                 transitions += st["states_generated"]
 
+    phase["model_checking"] = round(time.time() - tp0, 1)
+    tp0 = time.time()
     # 2. behaviours of the as-implemented model -> schedules
     simc = spec.get("sim") or dict(Node="{1,2,3}", MaxTerm=5, MaxLog=6, MaxMsgs=8, Cap=2,
                                    Faults=["Crash", "Stop", "Drop", "Dup", "Client", "Heartbeat"], MaxCrash=2, MaxDrop=3)
@@ -380,11 +421,15 @@ def check(prop, tier):
         client_scheds, _ = client_schedules(wd, T["sim_num"] * spec["client"] // 100, 24, dv.seed())
         scheds += client_scheds
 
+    phase["schedule_generation"] = round(time.time() - tp0, 1)
+    tp0 = time.time()
     # 3. real code
     hcfg = spec.get("hcfg") or {"n": 3, "cap": 2}
     traces = run_harness(wd, scheds, T["rnd_runs"], T["rnd_depth"], dv.seed(), hcfg,
                          rnd_cfgs=spec.get("rnd_cfgs"), profile=spec.get("profile", "default"), prop=prop)
 
+    phase["real_nodes"] = round(time.time() - tp0, 1)
+    tp0 = time.time()
     # 4. judge
     viol, div = [], []
     steps = conf = runs = 0
@@ -396,6 +441,7 @@ def check(prop, tier):
         conf += res["conf"]
         runs += res["runs"]
 
+    phase["trace_judge"] = round(time.time() - tp0, 1)
     # 5. verdict
     known_hits, new = dv.classify(prop, viol)
     replay_paths = []
@@ -447,7 +493,7 @@ def check(prop, tier):
         "conformance_divergences": divsum,
         "monitor_failures_all_properties": len(viol),
         "known_findings_hit": sorted({"%s/%s/%s" % (k["property"], k["monitor"], k["cause"]) for k, _ in known_hits}),
-        "exhaustive": False,
+        "exhaustive": False, "phase_secs": phase,
     }
     level = spec.get("level", "model_checking") if not divsum else "exploration"
     dv.write_evidence(prop, tier, level, cov,
